@@ -11,6 +11,8 @@ Import ListNotations.
 Open Scope N_scope.
 
 Definition bytes_ok (l : list N) : Prop := Forall (fun b => b < 256) l.
+(* an attribute value is at most what the extended length field can express *)
+Definition len_ok (l : list N) : Prop := N.of_nat (length l) < 65536.
 
 (* RFC 4271 s4.3 path segments (four-octet AS numbers, RFC 6793): a sequence of
    <type 1..4, count, count AS numbers>, exactly filling the value. *)
@@ -36,14 +38,14 @@ Definition class_bits_ok (code flags : N) : Prop :=
 
 Definition wf_data (code : N) (d : adata) : Prop :=
   match canonical_flags code with
-  | None => match d with DOpaque b => bytes_ok b | _ => False end
+  | None => match d with DOpaque b => bytes_ok b /\ len_ok b | _ => False end
   | Some _ =>
       if (code =? ORIGIN) then match d with DVal v => v <= 2 | _ => False end
       else if (code =? MULTI_EXIT_DESC) || (code =? LOCAL_PREF) || (code =? ORIGINATOR_ID)
       then match d with DVal v => v < 4294967296 | _ => False end
       else match d with
            | DBin b =>
-               bytes_ok b /\
+               bytes_ok b /\ len_ok b /\
                (if code =? AS_PATH then wf_as_path b
                 else if code =? NEXTHOP then length b = 4%nat \/ length b = 16%nat
                 else if code =? ATOMIC_AGGREGATE then b = []
